@@ -193,6 +193,11 @@ func (g *zoneGen) service(owner string, prio uint16) simdoh.RR {
 		if core.Chance(g.r, 1, 4) {
 			target = g.freshName()
 		}
+		if core.Chance(g.r, 1, 12) {
+			// a name no DNS message may carry: many short labels, more than
+			// 255 octets on the wire (each label and its length octet count)
+			target = strings.Repeat(core.Pick(g.r, []string{"a.", "b.c.", "x."}), core.Between(g.r, 126, 140)) + "test"
+		}
 	}
 	return simdoh.RR{Name: owner, Type: simdoh.TypeHTTPS, TTL: g.ttl(), Target: target, Svc: s}
 }
@@ -350,7 +355,14 @@ func (g *zoneGen) faults(names []string) {
 		if core.Chance(g.r, 1, 2) {
 			f.Type = uint16(core.Pick(g.r, []int{simdoh.TypeA, simdoh.TypeAAAA, simdoh.TypeHTTPS}))
 		}
-		switch g.r.IntN(8) {
+		switch g.r.IntN(9) {
+		case 8:
+			// the upstream answers another question than the one asked
+			f.Kind = simdoh.FaultOtherQ
+			f.Text = core.Pick(g.r, names)
+			if f.Text == f.Name || len(simdoh.NameProblems(f.Text)) > 0 {
+				f.Text = "a.evil.test"
+			}
 		case 0, 1, 2:
 			f.Kind, f.RCode = simdoh.FaultRCode, core.Pick(g.r, []int{1, 2, 2, 3, 4, 5, 5, 9, 6, 10, 16, 32, 17, 23})
 		case 3:
